@@ -53,9 +53,12 @@ impl<'a, 'b, 'c> AdtDeserializer<'a, 'b, 'c> {
         for (idx, serialized_evolution_step) in serialized_evolution_steps.iter().enumerate() {
             match serialized_evolution_step {
                 SerializedEvolutionStep::FieldAddedToNewChunk { size } => {
+                    let size = usize::try_from(*size).map_err(|_| {
+                        Error::DeserializationFailure(format!("Invalid chunk size: {size}"))
+                    })?;
                     let start = context.pos();
-                    context.skip(*size as usize)?;
-                    inputs.push(InputRegion::new(start, *size as usize));
+                    context.skip(size)?;
+                    inputs.push(InputRegion::new(start, size));
                 }
                 SerializedEvolutionStep::FieldMadeOptional { position } => {
                     made_optional_at.insert(*position, idx as u8);
